@@ -6,7 +6,7 @@
     byte stream C06.  The composition itself - real sender, real listener, real
     byte stream cut at arbitrary offsets - is exercised end to end on generated
     configurations every run (harness e2e). *)
-From FV Require Import Base.Serial Frame.SessionSplit Link.Receiver Proofs.SessionSplitProofs Proofs.ReceiverProofs Proofs.EndToEnd.
+From FV Require Import Base.Serial Frame.SessionSplit Link.Receiver Proofs.SessionSplitProofs Proofs.ReceiverProofs Proofs.EndToEnd Proofs.Stream.
 Open Scope N_scope.
 
 (** Whatever the message [m] (any bytes, any length) and whatever the frame size
@@ -33,3 +33,27 @@ Example C01_example :
   let r := rrun s (map EXfer (frames_of 7 7 0 (cut (session_split 504 30 12 1500) m))) in
   length (snd r) = 4%nat /\ last (snd r) [] = [ORecv (mkD 7 7 None) (Some 0) m].
 Proof. vm_compute. split; reflexivity. Qed.
+
+(** The stream: for every list of messages (any number, any bytes, any lengths, any delivery-ids), every frame
+    size that leaves room for the transfer performatives and every automatic credit n >= 1: when the application
+    calls recv(), the frames of the next message arrive, and the application accepts the delivery - over and over -
+    the deliveries returned are exactly the messages sent, each once, in order, unchanged; no delivery is ever
+    refused for lack of credit; and the link is back in its idle state (credit + processed = n) after every
+    round, so the stream can go on for ever.  This composes the session's cut (C07), the receiving link's
+    reassembly (C10) and its credit replenishment (C09). *)
+Theorem C01_stream_intact :
+  forall n mfb lf lr, 1 <= n -> lf <= mfb -> lr < mfb ->
+  forall (ms : list (N * list N)) s, idle_auto n s ->
+    let r := rrun s (concat (map (fun p => mround mfb lf lr (fst p) (snd p)) ms)) in
+    idle_auto n (fst r) /\ payloads (concat (snd r)) = map snd ms /\ ~ In (ORecvErr ETransferLimit) (concat (snd r)).
+Proof. exact stream_intact. Qed.
+Print Assumptions C01_stream_intact.
+
+(** the initial state of a link in Auto(n) mode is idle *)
+Example C01_stream_start : forall n second idc, idle_auto n (rinit (Auto n) second idc).
+Proof. exact idle_auto_init. Qed.
+
+Example C01_stream_example :
+  let ms := [(0, map N.of_nat (seq 0 700)); (1, []); (2, map N.of_nat (seq 5 1200)); (3, [7])] in
+  payloads (concat (snd (rrun (rinit (Auto 3) false 0) (concat (map (fun p => mround 504 30 12 (fst p) (snd p)) ms))))) = map snd ms.
+Proof. exact stream_example. Qed.
